@@ -48,3 +48,12 @@ Theorem C18_linearizable : forall (A : Type) (cap : nat) prog c, (1 <= cap)%nat 
 Proof. intros A cap prog c Hc. exact (ConcQueue.linearizable A cap Hc _ _ eq_refl eq_refl prog c). Qed.
 Print Assumptions C18_linearizable.
 
+
+(* The locks matter in this model: with Add NOT taking the write lock (queue_add_locked = false) there is
+   a schedule of three goroutines on a queue of capacity 1 after which the shared queue holds two
+   messages - both later Adds evict before either inserts. *)
+Theorem C18_unlocked_witness :
+  exists c, ConcQueue.reach nat false true (ConcQueue.init nat 1%nat ConcQueue.wprog) c /\
+            (length (q_items (ConcQueue.shq nat c)) > 1)%nat.
+Proof. exact ConcQueue.unlocked_exceeds_capacity. Qed.
+Print Assumptions C18_unlocked_witness.
